@@ -104,3 +104,19 @@ Check (eq_refl : @failed_seeks_safe = fun A (data : list A) (atr : list (entry A
     e_out e = AFail /\ (e_pos' e = e_pos e \/ e_pos' e = lenN data) /\
     (e_pos' e = lenN data -> seek_free post ->
        delivered data post = [] /\ Forall (fun x => polls x = true -> eos x = true) post)).
+Check (eq_refl : @cur_ok = fun A (data : list A) (e : entry A) =>
+    e_pos e <= lenN data /\ e_pos' e <= lenN data /\
+    match e_op e, e_out e with
+    | ARead n, AData xs =>
+        prefix xs (dropN (e_pos e) data) /\ lenN xs <= n /\ e_pos' e = e_pos e + lenN xs /\
+        (0 < n -> e_pos e < lenN data -> xs <> [])
+    | AFill, AData xs =>
+        prefix xs (dropN (e_pos e) data) /\ e_pos' e = e_pos e /\ (e_pos e < lenN data -> xs <> [])
+    | AConsume k, AUnit => e_pos' e = e_pos e + k
+    | ANext, AItem (Some x) => prefix [x] (dropN (e_pos e) data) /\ e_pos' e = e_pos e + 1
+    | ANext, AItem None => e_pos e = lenN data /\ e_pos' e = e_pos e
+    | ASeek (Some t), AUnit => t <= lenN data /\ e_pos' e = t
+    | ASeek (Some t), APos q => q = t /\ t <= lenN data /\ e_pos' e = t
+    | ASeek None, AFail => e_pos' e = e_pos e \/ e_pos' e = lenN data
+    | _, _ => False
+    end).
